@@ -28,6 +28,81 @@ STATS_MUTEX = "Oomd::Stats::stats_mutex_"
 THREAD_MUTEX = "Oomd::Stats::thread_mutex_"
 
 
+_RAW_WRITERS = ("write", "writev", "pwrite", "send", "sendto", "sendmsg")
+_MSG_NOSIGNAL = ("MSG_NOSIGNAL", "16384", "0x4000")
+
+
+def _has_nosignal(P, f, call):
+    n = f.nodes[call]
+    nm = plain(n.get("callee", ""))
+    args = n.get("args", [])
+    if nm in ("send", "sendto", "sendmsg") and len(args) >= (3 if nm == "sendmsg" else 4):
+        fa = args[2 if nm == "sendmsg" else 3]
+        flags = f.text(fa)
+        if not any(t in flags for t in _MSG_NOSIGNAL):
+            try:
+                flags = Expander(P, f)(fa)       # a flags local: its one definition
+            except Exception:
+                pass
+        return any(t in flags for t in _MSG_NOSIGNAL)
+    return False
+
+
+def _raw_senders(P, cg, f, call, depth=0, binding=None, seen=None):
+    """(name, location, carries MSG_NOSIGNAL) of every raw write/send system call the call can reach; a callable parameter is followed to
+    what the caller on this path passed for it."""
+    seen = seen if seen is not None else set()
+    n = f.nodes[call]
+    nm = plain(n.get("callee", "") or "")
+    out = []
+    if nm in _RAW_WRITERS:
+        return [(nm, f.loc(call), _has_nosignal(P, f, call))]
+    targets = []
+    if n.get("callee") is None and "fnexpr" in n:
+        fe = f.nodes[f.strip(n["fnexpr"])]
+        if fe.get("k") == "ref" and fe.get("dk") == "param" and binding is not None:
+            pidx = next((k for k, p_ in enumerate(f.params) if p_.get("decl") == fe.get("decl")), None)
+            if pidx is not None and pidx < len(binding[1]):
+                g, a = binding[0], binding[1][pidx]
+                an = g.nodes[g.strip(a)]
+                if an.get("k") == "ref" and an.get("dk") == "func" and an.get("name") in _RAW_WRITERS:
+                    return [(an["name"], f.loc(call) + " (passed as " + g.text(a) + " at " + g.loc(a) + ")", False)]
+    for e in cg.out.get(f.usr, ()):
+        if isinstance(e.node, int) and e.node == call and e.dst in P.fns:
+            targets.append(P.fns[e.dst])
+    if depth > 6:
+        return out
+    for t in targets:
+        key = (t.usr, call, f.usr)
+        if key in seen:
+            continue
+        seen.add(key)
+        b = (f, n.get("args", []))
+        for j in t.calls():
+            out += _raw_senders(P, cg, t, j, depth + 1, b, seen)
+    return out
+
+
+def _sigpipe_ignored(P, cg):
+    """SIGPIPE is given a non-default disposition (signal / sigaction / sigignore on signal 13) in the daemon's own code."""
+    for f in P.fns.values():
+        if f.file.endswith("Test.cpp"):
+            continue
+        for i in f.calls("signal", "sigaction", "sigignore", "bsd_signal", "sigset"):
+            n = f.nodes[i]
+            a = n.get("args", [])
+            if not a or plain(n.get("callee", "")) not in ("signal", "sigaction", "sigignore", "bsd_signal", "sigset", "std::signal"):
+                continue
+            if f.text(a[0]).strip("()") not in ("13", "SIGPIPE"):
+                continue
+            if plain(n.get("callee", "")) in ("signal", "std::signal", "bsd_signal", "sigset") and len(a) >= 2:
+                h = f.text(a[1]).replace(" ", "")
+                if h.endswith(")0") or h in ("0", "nullptr", "SIG_DFL") or h.endswith("(0)"):
+                    continue        # back to the default action
+            return True
+    return False
+
+
 def run(ctx):
     # the accept loop ends only with the server: a failed accept() (EMFILE, ECONNABORTED, ...) is logged and retried - no break / return
     rsk0 = ctx.fn1("Oomd::Stats::runSocket")
@@ -153,7 +228,10 @@ def run(ctx):
             closers[e_.node[1:]] = e_.dst
     for i in pm.calls("close"):
         ev.setdefault(i, []).append(("set", "closed"))
-    wr = pm.calls("Util::writeFull")
+    # the reply sinks: whatever sends bytes on the connection's descriptor (helpers of Util included)
+    wr = [i for i in pm.calls("Util::writeFull", "Util::sendFull", "write", "writev", "send", "sendto", "sendmsg")
+          if pm.nodes[i].get("args") and plain(pm.nodes[i].get("callee", "")) in
+          ("Oomd::Util::writeFull", "Oomd::Util::sendFull", "Util::writeFull", "Util::sendFull", "write", "writev", "send", "sendto", "sendmsg")]
     for i in wr:
         ev.setdefault(i, []).append(("set", "replied"))
     fpm = Flow(P, pm, events=ev, cg=cg)
@@ -190,6 +268,20 @@ def run(ctx):
                   "reply written to " + pm.text(pm.nodes[i]["args"][0]))
     ctx.counters["reply_sites"] = len(wr)
     ctx.floor("reply_sites", 1, "reply write in processMsg")
+    # ... and writing it cannot kill the daemon: a client that disconnected before the reply makes write(2)/send(2) raise SIGPIPE, whose
+    # default action terminates the process.  Every raw system call a reply sink reaches is a send-family call carrying MSG_NOSIGNAL,
+    # unless SIGPIPE is ignored process-wide before the service starts.
+    ignored = _sigpipe_ignored(P, cg)
+    for i in wr:
+        raws = _raw_senders(P, cg, pm, i)
+        bad = ["%s at %s" % (nm, where) for nm, where, nosig in raws if not nosig]
+        if not raws:
+            ctx.broken("reply-cannot-raise-SIGPIPE", "interprocedural", pm.loc(i), "cannot find the system call behind the reply sink " + pm.text(i)[:60])
+            continue
+        ctx.check(ignored or not bad, "reply-cannot-raise-SIGPIPE", "effect (interprocedural, callable parameters followed)", pm.loc(i),
+                  "the reply is sent with MSG_NOSIGNAL (or SIGPIPE is ignored): a client that is gone cannot terminate the daemon",
+                  "the reply reaches %s without MSG_NOSIGNAL and SIGPIPE is left at its default: a client that sends its request and disconnects "
+                  "before the reply is written terminates the daemon with SIGPIPE" % ", ".join(bad))
 
     # ------------------------------------------------ protocol table (switch or if-chain on the first request byte)
     full = Flow(P, pm, cg=cg)
